@@ -1110,7 +1110,7 @@ class C08(Prop):
         return None
 
 
-def ctor_cases(tier, rng, k, n):
+def _ctor_cases_base(tier, rng, k, n):
     """C19: every constructor / From impl on values whose components are pairwise different"""
     rng = rng.fork("ctor%d" % k)
     count = (8000 if tier == "quick" else 150000) // n
@@ -1200,6 +1200,15 @@ def ctor_cases(tier, rng, k, n):
         yield ("ctor-hdr", ("hdr1", "50524f585920554e4b4e4f574e0d0a,4,01020304,05060708,1,2"), {})
 
 
+def ctor_cases(tier, rng, k, n):
+    """the constructor stream; every socket-address pair is also carried end to end (Display -> parse, Builder -> parse):
+    the tie for C19_round_v1 / C19_round_v2 / C19_wire_layout / C19_text_layout"""
+    for stream, e, meta in _ctor_cases_base(tier, rng, k, n):
+        yield (stream, e, meta)
+        if e[0] == "pair":
+            yield ("ctor-pairrt", ("pairrt", e[1]), meta)
+
+
 class C19(Prop):
     id = "C19"
     projection_name = "ctor (public fields of the constructed values, variant of the resulting Addresses)"
@@ -1207,7 +1216,7 @@ class C19(Prop):
     trusted_extra = ("the theorems of Props/C19.v are reflexivity facts about Model/Ctor.v; the property is decided by the tie "
                      "(field-by-field comparison with the real constructors on pairwise different components)",)
 
-    IN_SCOPE = ("ip4new", "ip6new", "unix", "pair")
+    IN_SCOPE = ("ip4new", "ip6new", "unix", "pair", "pairrt")
 
     def groups(self, stream, e, meta):
         # Type codes, TypeLengthValue::new / From / to_owned, the BitOr impls, Addresses::default and Header::new are
@@ -1249,6 +1258,32 @@ class C19(Prop):
                 want = "V1=U V2=N"
             if line != want:
                 return "From<(SocketAddr, SocketAddr)>: expected %s, got %s" % (want, line)
+        elif kind == "pairrt":
+            if f[0] == "4":
+                s, rest = (f[1], f[2]), f[3:]
+            else:
+                s, rest = (f[1], f[2]), f[5:]
+            d = (rest[1], rest[2])
+            m = re.match(r"L=(\S+) R1=(\S+) RA=(\S+) W=(\S+) R2=(\S+)$", line)
+            if not m:
+                return "end-to-end pair case: unreadable result %s" % line[:80]
+            L, r1, ra, w, r2 = m.groups()
+            if f[0] == rest[0]:
+                n = f[0]
+                want = "%s/%s/%s/%s/%s" % (n, s[0], d[0], s[1], d[1])
+                if r1 != want or ra != want:
+                    return "pair -> v1 line -> parse: source/destination not preserved: expected %s, got %s / %s" % (want, r1, ra)
+                if r2 != want:
+                    return "pair -> v2 builder -> parse: source/destination not preserved: expected %s, got %s" % (want, r2)
+                block = s[0] + d[0] + "%04x%04x" % (int(s[1]), int(d[1]))
+                if w == "ERR" or w[32:] != block:
+                    return "pair -> v2 builder: the address block on the wire is not source address, destination address, source port, destination port"
+                tail = " %s %s\r\n" % (s[1], d[1])
+                if not bytes.fromhex(L).endswith(tail.encode()) or not bytes.fromhex(L).startswith(b"PROXY TCP" + n.encode() + b" "):
+                    return "pair -> v1 line: the ports are not source port then destination port"
+            else:
+                if r1 != "U" or ra != "U" or r2 != "N" or bytes.fromhex(L) != b"PROXY UNKNOWN\r\n" or w[32:] != "":
+                    return "mixed pair carried end to end is not the unknown / unspecified value: %s" % line[:100]
         elif kind == "bitor":
             c, fam, pr = (int(x) for x in f)
             want = "VC=%d CV=%d FP=%d PF=%d FL=%s" % (0x20 | c, 0x20 | c, (fam << 4) | pr, (fam << 4) | pr, ["-", "12", "36", "216"][fam])
